@@ -12,8 +12,8 @@ def run(path):
     r = json.load(open(path))
     pid = r["property"]
     from . import checks
-    mon = checks.MONITOR.get(pid, "Mon" + pid)
-    sub = checks.EXECUTOR.get(pid, "flw")
+    mon = r.get("monitor") or checks.MONITOR.get(pid, "Mon" + pid)
+    sub = r.get("executor") or checks.EXECUTOR.get(pid, "flw")
     C.build_harness()
     wd = C.workdir("replay")
     try:
